@@ -143,6 +143,9 @@ example :
     s.halts = [.done 0 ⟨2, 20⟩, .done 2 ⟨2, 20⟩] ∧ s.sent = [⟨1, 10⟩, ⟨2, 20⟩] ∧ s.spc = .exited := by
   decide
 
-example : Morlock.Model.limits 60000 0 = (750, 2250) ∧ Morlock.Model.limits 60000 9 = (3000, 9000) := by decide
+-- with moves to go the horizon assumed for sudden death plays no role; in sudden death the limits follow the horizon read from the source
+example : Morlock.Model.limits 60000 9 = (3000, 9000) := by decide
+example : Morlock.Model.limits 60000 0 =
+    (Int.tdiv (Int.tdiv 60000 Gen.defaultHorizon) 2, 3 * Int.tdiv (Int.tdiv 60000 Gen.defaultHorizon) 2) := by decide
 
 end Morlock.Props.C15
